@@ -13,6 +13,8 @@ import (
 	"strings"
 	"time"
 
+	"golang.org/x/tools/go/ssa"
+
 	"fgsym/smt"
 	"fgsym/symex"
 )
@@ -205,13 +207,14 @@ func (n *native) replay(res symex.HarnessResult, vc *symex.VC, model map[string]
 	return replayResult{"not-reproduced", "assertion held natively"}
 }
 
-// validate replays up to k satisfiable complete paths natively and compares every recorded
-// observable with the value the encoding predicts under the same assignment.
-func (n *native) validate(res symex.HarnessResult, opts symex.DischargeOpts, k int) (int, string) {
+// validate is the translator validation: for up to k completed paths an input assignment is
+// obtained from the solver, the *encoding* is run on it (the interpreter in concrete mode: every
+// term folds to a constant) and the *real code* is run on it (native build); both executions must
+// agree on assumption outcome, failed assertions, panics and every recorded observable.
+func (n *native) validate(eng *symex.Engine, fn *ssa.Function, res symex.HarnessResult, opts symex.DischargeOpts, k int) (int, string) {
 	if len(res.Ends) == 0 {
 		return 0, ""
 	}
-	// spread the picks over the path list
 	step := len(res.Ends) / k
 	if step == 0 {
 		step = 1
@@ -223,9 +226,17 @@ func (n *native) validate(res symex.HarnessResult, opts symex.DischargeOpts, k i
 	}
 	for i := 0; i < len(res.Ends) && done < k; i += step {
 		pe := res.Ends[i]
-		r, model, recVals := symex.SolvePath(pe, o)
-		if r != smt.Sat {
+		model, ok := symex.GuessInputs(pe, o)
+		if !ok {
 			continue
+		}
+		in := &symex.ConcreteInputs{Values: model, Choices: map[string]int{}}
+		for _, c := range pe.Choices {
+			in.Choices[c.Name] = c.V
+		}
+		tr := eng.RunConcrete(fn, in)
+		if tr.Aborted != "" {
+			return done, "concrete interpretation aborted: " + tr.Aborted
 		}
 		vf := filepath.Join(n.work, fmt.Sprintf("tv-%s-%d.json", res.Name, i))
 		if err := writeValues(vf, model, pe.Choices); err != nil {
@@ -235,26 +246,36 @@ func (n *native) validate(res symex.HarnessResult, opts symex.DischargeOpts, k i
 		if err != nil {
 			return done, err.Error()
 		}
-		if nr.assumeFail {
-			return done, fmt.Sprintf("path %d: assumption failed natively under the solver's model (values %s)", i, modelString(model, pe.Choices))
+		where := fmt.Sprintf("path %d (inputs %s)", i, modelString(model, pe.Choices))
+		if tr.AssumeFail != nr.assumeFail {
+			return done, fmt.Sprintf("%s: assumption outcome differs: encoding assumeFail=%v, native assumeFail=%v", where, tr.AssumeFail, nr.assumeFail)
 		}
-		if nr.panicMsg != "" {
-			return done, fmt.Sprintf("path %d: native run panicked (%s) on a path the encoding completes (values %s)", i, nr.panicMsg, modelString(model, pe.Choices))
+		if tr.AssumeFail {
+			continue // consistent, but not a useful trace
 		}
-		if len(nr.asserts) > 0 {
-			return done, fmt.Sprintf("path %d: native assertion %v failed on a path where the encoding assumes it (values %s)", i, nr.asserts, modelString(model, pe.Choices))
+		if (tr.Panic != "") != (nr.panicMsg != "") {
+			return done, fmt.Sprintf("%s: panic outcome differs: encoding %q, native %q", where, tr.Panic, nr.panicMsg)
 		}
-		// compare records
+		if len(tr.Failed) > 0 {
+			if len(nr.asserts) == 0 || nr.asserts[0] != tr.Failed[0] {
+				return done, fmt.Sprintf("%s: failed assertion differs: encoding %v, native %v", where, tr.Failed, nr.asserts)
+			}
+		} else if len(nr.asserts) > 0 {
+			return done, fmt.Sprintf("%s: native assertion %v failed where the encoding evaluates it to true", where, nr.asserts)
+		}
 		idx := map[string]int{}
-		for j, rec := range pe.Recs {
-			want := termJSON(recVals[j])
+		for _, rec := range tr.Recs {
+			if !rec.V.IsConst() {
+				return done, fmt.Sprintf("%s: record %s did not fold to a constant in concrete mode", where, rec.Tag)
+			}
+			want := termJSON(rec.V)
 			got := ""
 			if l := nr.records[rec.Tag]; idx[rec.Tag] < len(l) {
 				got = l[idx[rec.Tag]]
 			}
 			idx[rec.Tag]++
 			if got != want {
-				return done, fmt.Sprintf("path %d: record %s: encoding predicts %s, native run gives %q (values %s)", i, rec.Tag, want, got, modelString(model, pe.Choices))
+				return done, fmt.Sprintf("%s: record %s: encoding gives %s, real code gives %q", where, rec.Tag, want, got)
 			}
 		}
 		done++
